@@ -171,8 +171,8 @@ PROPS['C10'] = dict(
     title='The solver reads an instance file as the instance the file denotes',
     functions=[FIO + '_get_simple_pref_list_and_ranks', FIO + '_create_pairs_row', FIO + '_create_student_ranks', FIO + '_set_lecturers', FIO + '_set_lecturer_ranks',
                FIO + '_import_from_file', FIO + 'import_model', MOD + 'set_project_lists', MOD + 'set_lecturer_lists', MOD + 'set_rank_lists', MOD + '_get_max_rank'],
-    lemmas=['C13/writer-shape', 'LISTSET/empty-append', 'LISTSET/iterate', 'SUM/ext', 'C10/derived-lists-compose'], level='other',
-    level_text='proved for all list lengths / instance sizes: the tie-aware tokeniser (values in order, dense ranks following the tie groups), the construction of a student\'s row of fresh Pair objects, the per-lecturer rank dictionary, the assignment of lecturers and lecturer ranks to every pair, and the derived project / lecturer / rank lists (each holds exactly the pairs of that project / lecturer / rank - as element sets and, for project and lecturer lists, as a sum identity for every weight, so no pair is listed twice; one rank list per rank up to the maximum); composition lemma: these postconditions are what Solver.solve requires of the derived lists.  _import_from_file itself over a file model (a list of lines, each a list of tokens; a colon ends a field): for every file whose lines have the documented shape it never raises; line 0 gives the counts; lines 1..NS become the rows (one fresh pair per token, written numbers, dense tie ranks); the next NP lines the project quotas and lecturers; with three agent types the next NL lines the lecturer quotas; in a 2-agent file project j is offered by lecturer j with the same lower quota and target = upper quota = the project\'s upper quota; anything after the last section is ignored; the rank dictionary has exactly the (lecturer, listed student) keys, so every pair finds its lecturer rank; the result satisfies sizes_ok and pairs_ok, and import_model adds the three derived lists.  NOT proved deductively (bounded stand-in): the character-level lexer (T7: replace / split), i.e. that a text line denotes its token list',
+    lemmas=['C13/writer-shape', 'LISTSET/empty-append', 'LISTSET/iterate', 'SUM/ext', 'C10/derived-lists-compose', 'C10/dense-ranks-sorted', 'C10/reader-rows-sorted', 'C10/dense-ranks-bounded', 'C10/reader-student-ranks-bounded'], level='other',
+    level_text='proved for all list lengths / instance sizes: the tie-aware tokeniser (values in order, dense ranks following the tie groups), the construction of a student\'s row of fresh Pair objects, the per-lecturer rank dictionary, the assignment of lecturers and lecturer ranks to every pair, and the derived project / lecturer / rank lists (each holds exactly the pairs of that project / lecturer / rank - as element sets and, for project and lecturer lists, as a sum identity for every weight, so no pair is listed twice; one rank list per rank up to the maximum); composition lemma: these postconditions are what Solver.solve requires of the derived lists.  _import_from_file itself over a file model (a list of lines, each a list of tokens; a colon ends a field): for every file whose lines have the documented shape it never raises; line 0 gives the counts; lines 1..NS become the rows (one fresh pair per token, written numbers, dense tie ranks); the next NP lines the project quotas and lecturers; with three agent types the next NL lines the lecturer quotas; in a 2-agent file project j is offered by lecturer j with the same lower quota and target = upper quota = the project\'s upper quota; anything after the last section is ignored; the rank dictionary has exactly the (lecturer, listed student) keys, so every pair finds its lecturer rank; the result satisfies sizes_ok and pairs_ok, and import_model adds the three derived lists; composition lemmas: the rows read from a file are sorted by rank (the rows_sorted precondition of the stability constraints) and a student rank never exceeds the number of projects when no list is longer than that (the ranks-bounded precondition of the cost criteria).  NOT proved deductively (bounded stand-in): the character-level lexer (T7: replace / split), i.e. that a text line denotes its token list',
     harness=True, bound='<= 13 agents per side (two-digit numbers inside tie groups), 2-/3-agent, +-twopl, +-trailing block, extra blanks',
     budget={'quick': 20, 'thorough': 300},
     trusted=[T['T6'], T['T7'], 'T8 a file reads back as its lines in order'],
